@@ -247,7 +247,7 @@ func leafCase(data *spec.Data, expr string, v *spec.Value) (dataCase, bool) {
 		if !math.IsNaN(f) && !math.IsInf(f, 0) {
 			cs.LitSrc = "[{{ " + tw.ExprString(floatLit(f), nil) + " }}]"
 		}
-	case spec.TChan, spec.TFunc, spec.TComplex, spec.TArray:
+	case spec.TChan, spec.TFunc, spec.TComplex, spec.TArray, spec.TIntMap, spec.TBoolMap:
 		return cs, false
 	default:
 		cs.Expect, cs.I = "int", v.I
@@ -378,7 +378,7 @@ func TestC12_Unsupported(t *testing.T) {
 		"data maps in which a value of an unsupported kind (chan, func, complex128, fixed-size array) occurs at top level or nested at any depth (inside pointers, []any, typed slices, maps, struct fields), next to healthy entries, with templates that do and do not touch it: the call must return an error, no output, no panic. Non-trivial: the unsupported value is nested. Distinct by hash.")
 	defer c.Finish()
 	runRapid(t, c, 6000, 60000, func(rt *rapid.T) {
-		bad := spec.Unsupported(rapid.SampledFrom([]string{spec.TChan, spec.TFunc, spec.TComplex, spec.TArray}).Draw(rt, "kind"))
+		bad := spec.Unsupported(rapid.SampledFrom([]string{spec.TChan, spec.TFunc, spec.TComplex, spec.TArray, spec.TIntMap, spec.TBoolMap}).Draw(rt, "kind"))
 		depth := rapid.IntRange(0, 3).Draw(rt, "depth")
 		v := bad
 		for i := 0; i < depth; i++ {
